@@ -618,6 +618,43 @@ func TestVerif_C06_Catalogue(t *testing.T) {
 			}
 			acct.Case(true, "honest", func() any { return map[string]any{"kind": "honest-session"} }, "honest")
 		}
+		// honest session over a transport that delivers the bytes in small segments (a stream may split any write)
+		{
+			seg := rapid.SampledFrom([]int{1, 2, 7, 16, 33}).Draw(rt, "segment")
+			ca, ra0 := c06Pipe()
+			cb, rb0 := c06Pipe()
+			pump := func(src, dst *c06Conn) {
+				buf := make([]byte, seg)
+				for {
+					n, err := src.c.Read(buf)
+					if n > 0 {
+						if _, werr := dst.c.Write(buf[:n]); werr != nil {
+							return
+						}
+					}
+					if err != nil {
+						_ = dst.c.Close()
+						return
+					}
+				}
+			}
+			go pump(ra0, rb0)
+			go pump(rb0, ra0)
+			da := c06RunRequester(ca, k.A, k.B.GetPublic())
+			db := c06RunResponder(cb, k.B)
+			ra, rb := <-da, <-db
+			_ = ra0.c.Close()
+			_ = rb0.c.Close()
+			if ra.err != nil || rb.err != nil {
+				acct.Violation("honest-handshake-fails/segmented-transport", "TestVerif_C06_Catalogue", map[string]any{"segment_bytes": seg, "requester": fmt.Sprint(ra.err), "responder": fmt.Sprint(rb.err)})
+				rt.Fatalf("honest handshake over a transport delivering %d-byte segments failed: requester=%v responder=%v", seg, ra.err, rb.err)
+			}
+			if !rb.pk.Equals(k.A.GetPublic()) {
+				acct.Violation("honest-wrong-identity", "TestVerif_C06_Catalogue", map[string]any{"segment_bytes": seg})
+				rt.Fatalf("responder learnt another key than the requester's")
+			}
+			acct.Case(true, fmt.Sprintf("honest-seg%d", seg), func() any { return map[string]any{"kind": "honest-session", "segment_bytes": seg} }, "honest", "honest/segmented-transport")
+		}
 		// wrong target: A targets M's key while talking to B
 		{
 			ca, cb := c06Pipe()
